@@ -215,7 +215,7 @@ func (fe *FuncEnc) callCommon(v ssa.Value, c *ssa.CallCommon, st *State, args []
 			}
 		}
 	}
-	if fe.sc.taint && callee != nil {
+	if fe.sc.taint && callee != nil && contract == nil {
 		if fe.taintIntrinsic(v, c, callee, st, sig, hint) {
 			return
 		}
@@ -261,6 +261,12 @@ func (fe *FuncEnc) callCommon(v ssa.Value, c *ssa.CallCommon, st *State, args []
 		fe.usedAssumed[contract.FullName()] = true
 	}
 	fe.applyContract(v, contract, sig, paramNames, args, st, pos, hint, callee)
+	if fe.sc.taint && callee != nil && v != nil && fe.eng.cleanResult[fnFullName(callee)] && sig.Results().Len() == 1 {
+		// a function under contract whose string result is also declared clean (taint.spec)
+		if b, ok := sig.Results().At(0).Type().Underlying().(*types.Basic); ok && b.Kind() == types.String {
+			fe.assume(st, "(sf_clean "+fe.val(v)+")")
+		}
+	}
 }
 
 // resolveClosureCell: the called value is loaded from a local variable (or from the
